@@ -227,6 +227,9 @@ func (s *scen) step() {
 			p := pick(g, started)
 			if g.chance(1, 4) {
 				r.gate(p, gateMsg{code: pick(g, []int{-32000, 5, -32602, -32097, -32600, -32700, -32601, -32096}), msg: "handler says no"})
+			} else if g.chance(1, 14) {
+				// a result whose MarshalJSON fails with a coded error
+				r.gate(p, gateMsg{merr: true, code: pick(g, []int{-32700, -32600, -32000, -32602}), msg: "cannot marshal"})
 			} else if g.chance(1, 12) {
 				// a result that json.Marshal rejects (a RawMessage that is not one JSON value)
 				r.gate(p, gateMsg{res: pick(g, []string{`{"a":`, "1 2", "garbage", `{"x":1}{"y":2}`, `[1,`, "\x01"})})
